@@ -143,3 +143,19 @@ def dcd_set_nset(path, value=0):
         assert _struct.unpack("<i", head[:4])[0] == 84 and head[4:8] == b"CORD"
         fh.seek(8)
         fh.write(_struct.pack("<i", int(value)))
+
+
+def xyz_make_foreign(path):
+    """Rewrite an mdtraj-written .xyz file the way other tools write it: CRLF line ends and a free-text comment line
+    with non-ASCII characters (the format has no specification beyond 'count line, comment line, one line per atom')."""
+    txt = open(path, encoding="utf-8").read().split("\n")
+    out = []
+    i = 0
+    while i < len(txt) and txt[i].strip():
+        n = int(txt[i])
+        out.append(txt[i])
+        out.append("frame exported by another tool \u2014 lengths in \u00c5ngstr\u00f6m")
+        out.extend(txt[i + 2:i + 2 + n])
+        i += 2 + n
+    with open(path, "w", encoding="utf-8", newline="") as f:
+        f.write("\r\n".join(out) + "\r\n")
